@@ -271,6 +271,9 @@ func probeValid(a verArg) (string, string) {
 	wantValid := (v.PreRelease == "" || oracle.PreValid(v.PreRelease)) && (v.Build == "" || oracle.BuildValid(v.Build))
 	verr := v.Valid()
 	text := v.String()
+	if lim := libdefaults.SemMaxInputLength; lim != 0 && len(text) > lim {
+		return "", "" // longer than the parser's limit in force: the round trip cannot be asked for (the limit is C18's business)
+	}
 	back, perr := sem.Parse(text)
 	round := perr == nil && back == v
 	if (verr == nil) != round {
